@@ -100,6 +100,8 @@ mod substore;
 mod text;
 mod textselection;
 mod types;
+#[cfg(stam_verif)]
+pub mod verif_hooks;
 
 #[cfg(feature = "csv")]
 mod csv;
